@@ -24,7 +24,7 @@ n = len(rows)
 s = open('/verif/DESIGN.md').read()
 a, b = s.index('<!-- SEEDED-BEGIN -->'), s.index('<!-- SEEDED-END -->')
 body = '''<!-- SEEDED-BEGIN -->
-%d changes were written in eight rounds by fresh sub-agents that saw only the property
+%d changes were written in nine rounds by fresh sub-agents that saw only the property
 text and a scratch worktree under `/tmp` (nothing from `/verif`).  Each was confirmed
 with `seedtest.py` (demonstration passes without the patch; with the patch the whole
 suite passes and the demonstration fails); the checks then ran against a second scratch
